@@ -202,7 +202,7 @@ class SimTransport(asyncio.Transport):
         if conn.net.fail_next_write:
             conn.net.fail_next_write = False
             conn.net.event(("wfail", conn.cid, data))
-            self._force_close(ConnectionResetError("simulated write failure"))
+            self._force_close(conn.net.next_error("simulated write failure"))
             return
         conn.out += data
         conn.writes.append(data)
@@ -263,7 +263,7 @@ class SimTransport(asyncio.Transport):
     def peer_reset(self) -> None:
         if self._conn_lost:
             return
-        self._force_close(ConnectionResetError("simulated peer reset"))
+        self._force_close(self.conn.net.next_error("simulated peer reset"))
 
 
 class SimDatagramTransport(asyncio.DatagramTransport):
@@ -320,6 +320,21 @@ class SimNet:
 
     def event(self, ev: tuple) -> None:
         self.events.append(ev)
+
+    # the OS reports a dead connection in many ways: not only ConnectionError subclasses
+    ERRORS = (
+        lambda m: ConnectionResetError(m),
+        lambda m: OSError(113, "No route to host (" + m + ")"),          # EHOSTUNREACH
+        lambda m: BrokenPipeError(m),
+        lambda m: TimeoutError(110, "Connection timed out (" + m + ")"),  # ETIMEDOUT
+        lambda m: ConnectionAbortedError(m),
+        lambda m: OSError(101, "Network is unreachable (" + m + ")"),     # ENETUNREACH
+    )
+
+    def next_error(self, msg: str) -> OSError:
+        """the exception a failing connection reports; cycles through the classes above"""
+        self.error_index = getattr(self, "error_index", -1) + 1
+        return self.ERRORS[self.error_index % len(self.ERRORS)](msg)
 
     def take_events(self) -> list[tuple]:
         evs, self.events = self.events, []
